@@ -43,7 +43,7 @@ Proof. reflexivity. Qed.
 
 (* a wrong kind of value is refused, never coerced *)
 Theorem ser_wrong_kind_prim k val vals v :
-  match v with VInt _ _ | VBool _ | VChar _ | VNone | VUnit | VSome _ | VNewtypeStruct _ => False | _ => True end ->
+  match v with VInt _ _ | VBool _ | VChar _ | VNone | VUnit | VUnitStruct | VSome _ | VNewtypeStruct _ => False | _ => True end ->
   push v (BdPrim k val vals) = Err.
 Proof. destruct v; cbn; intros H; try contradiction; reflexivity. Qed.
 
